@@ -6,10 +6,21 @@
    R is ANY commutative ring with an involution (Base.CRing), e.g. the reals or the complex numbers. *)
 From Coq Require Import List ZArith Arith Bool Lia.
 Import ListNotations.
-From RV Require Import Base.CRing Base.BigSum Model.SvdQn Model.Krylov Gen.KrylovSites
+From RV Require Import Base.CRing Base.BigSum Model.SvdQn Model.Krylov Gen.KrylovSites Gen.SvdQnShape
                        Proofs.SvdQnProofs Proofs.KrylovProofs.
 
 (* ------------------------------------------------------------------ blocked decompositions *)
+
+(* the structural facts the model relies on, as read from renormalizer/mps/svd_qn.py by tx/svdqn.py on every run
+   (loop side, skip conditions for empty / one-sided sectors in svd_qn and eigh_qn, which of nl / nr labels and which of
+   lset / rset scatters the U and V columns, transposition of block_vt, qr / rq per system, the full_matrices split in
+   blockappend, main-before-extra concatenation, the economic-mode descending argsort, eigenvalue clipping and sqrt),
+   are the ones the model and all proofs below are written for.  The theorems below are stated about the model
+   instantiated with the GENERATED constants (src_shape): an edit of the source that changes one of these facts
+   makes this obligation -- and with it Proofs/SvdQnProofs.v and every theorem here -- fail to compile. *)
+Theorem C18_source_shape : src_shape = ref_shape.
+Proof. exact shape_ok. Qed.
+Print Assumptions C18_source_shape.
 
 (* for all label patterns (any number of components, any qntot, empty and one-sided sectors included) and
    any iteration order of the label set: a symmetry-allowed (row, col) pair lies in exactly one block,
@@ -18,8 +29,8 @@ Theorem C18_block_partition :
   forall qnl qnr qntot order,
   wf_labels qntot qnl -> wf_labels qntot qnr -> order_ok order qnl ->
   forall i j, i < length qnl -> j < length qnr ->
-  nblocks qnl qnr qntot order i j = if allowed qnl qnr qntot i j then 1 else 0.
-Proof. exact block_partition_count. Qed.
+  nblocks_s src_shape qnl qnr qntot order i j = if allowed qnl qnr qntot i j then 1 else 0.
+Proof. exact block_partition_src. Qed.
 Print Assumptions C18_block_partition.
 
 Theorem C18_block_partition_rel :
@@ -41,8 +52,8 @@ Print Assumptions C18_block_partition_rel.
 Theorem C18_svd_qn_sound_full :
   forall (R : CRing) qnl qnr qntot order (A : mat R) (W : label -> bfac R) p,
   wf_labels qntot qnl -> wf_labels qntot qnr -> order_ok order qnl ->
-  svd_witness_ok R true qnl qnr qntot order A W ->
-  let o := svd_qn R true qnl qnr qntot order W p in
+  svd_witness_ok_s R src_shape true qnl qnr qntot order A W ->
+  let o := svd_qn_s R src_shape true qnl qnr qntot order W p in
   let m := length qnl in let n := length qnr in
   (forall i j, i < m -> j < n ->
      sumn (oKmain o) (fun k => rmul R (rmul R (oU o i k) (oSu o k)) (oV o j k)) = masked R qnl qnr qntot A i j) /\
@@ -52,7 +63,7 @@ Theorem C18_svd_qn_sound_full :
   (forall j k, k < oKv o -> nth j qnr [] <> nth k (oQr o) [] -> oV o j k = r0 R) /\
   length (oQl o) = oKu o /\ length (oQr o) = oKv o /\ oKmain o <= oKu o /\ oKmain o <= oKv o /\
   (forall k, oKmain o <= k -> oSu o k = r0 R /\ oSv o k = r0 R).
-Proof. exact svd_qn_full_sound. Qed.
+Proof. exact svd_qn_full_sound_src. Qed.
 Print Assumptions C18_svd_qn_sound_full.
 
 (* svd_qn, full_matrices=False (the truncating form): all columns are paired, and the output is globally
@@ -61,9 +72,9 @@ Print Assumptions C18_svd_qn_sound_full.
 Theorem C18_svd_qn_sound_econ :
   forall (R : CRing) qnl qnr qntot order (A : mat R) (W : label -> bfac R) p,
   wf_labels qntot qnl -> wf_labels qntot qnr -> order_ok order qnl ->
-  svd_witness_ok R false qnl qnr qntot order A W ->
-  perm_okb p (oKmain (svd_qn_pre R qnl qnr qntot order W)) = true ->
-  let o := svd_qn R false qnl qnr qntot order W p in
+  svd_witness_ok_s R src_shape false qnl qnr qntot order A W ->
+  perm_okb p (oKmain (svd_qn_pre_s R src_shape qnl qnr qntot order W)) = true ->
+  let o := svd_qn_s R src_shape false qnl qnr qntot order W p in
   let m := length qnl in let n := length qnr in
   oKu o = oKmain o /\ oKv o = oKmain o /\ length (oQl o) = oKu o /\ length (oQr o) = oKv o /\
   (forall i j, i < m -> j < n ->
@@ -75,7 +86,7 @@ Theorem C18_svd_qn_sound_econ :
   (forall k, oSu o k = oSv o k) /\
   (forall (le : R -> R -> Prop), (forall x y z, le x y -> le y z -> le x z) ->
      desc_sorted R le (oKmain o) (oSu o) -> forall k k', k < k' -> k' < oKmain o -> le (oSu o k') (oSu o k)).
-Proof. exact svd_qn_econ_sound. Qed.
+Proof. exact svd_qn_econ_sound_src. Qed.
 Print Assumptions C18_svd_qn_sound_econ.
 
 (* svd_qn with QR=True: qr for system "L" (U orthonormal), rq for system "R" (V orthonormal), both full and
@@ -83,8 +94,8 @@ Print Assumptions C18_svd_qn_sound_econ.
 Theorem C18_qr_qn_sound :
   forall (R : CRing) qnl qnr qntot order (A : mat R) (W : label -> bfac R) sy,
   wf_labels qntot qnl -> wf_labels qntot qnr -> order_ok order qnl ->
-  qr_witness_ok R sy qnl qnr qntot order A W ->
-  let o := svd_qn_pre R qnl qnr qntot order W in
+  qr_witness_ok_s R src_shape sy qnl qnr qntot order A W ->
+  let o := svd_qn_pre_s R src_shape qnl qnr qntot order W in
   let m := length qnl in let n := length qnr in
   oKv o = oKu o /\ length (oQl o) = oKu o /\ length (oQr o) = oKv o /\
   (forall i j, i < m -> j < n -> sumn (oKu o) (fun k => rmul R (oU o i k) (oV o j k)) = masked R qnl qnr qntot A i j) /\
@@ -93,24 +104,47 @@ Theorem C18_qr_qn_sound :
   (forall k, k < oKu o -> ladd (nth k (oQl o) []) (nth k (oQr o) []) = qntot) /\
   (forall i k, k < oKu o -> nth i qnl [] <> nth k (oQl o) [] -> oU o i k = r0 R) /\
   (forall j k, k < oKv o -> nth j qnr [] <> nth k (oQr o) [] -> oV o j k = r0 R).
-Proof. exact qr_qn_sound. Qed.
+Proof. exact qr_qn_sound_src. Qed.
 Print Assumptions C18_qr_qn_sound.
 
 (* eigh_qn: U diag(lambda) U^dagger restores the diagonal blocks of the density matrix whose sector has a
    partner in the complementary labels; columns orthonormal and labelled by their block *)
 Theorem C18_eigh_qn_sound :
   forall (R : CRing) qn comp qntot order (A : mat R) (W : label -> bfac R),
-  order_ok order qn -> eigh_witness_ok R qn comp qntot order A W ->
-  let o := eigh_qn R qn comp qntot order W in
+  order_ok order qn -> eigh_witness_ok_s R src_shape qn comp qntot order A W ->
+  let o := eigh_qn_s R src_shape qn comp qntot order W in
   let m := length qn in
   length (eQ o) = eK o /\
   (forall i j, i < m -> j < m ->
      sumn (eK o) (fun k => rmul R (rmul R (eU o i k) (eL o k)) (rcj R (eU o j k)))
-     = if eigh_present comp qntot (nth i qn []) && label_eqb (nth j qn []) (nth i qn []) then A i j else r0 R) /\
+     = if eigh_present_s src_shape comp qntot (nth i qn []) && label_eqb (nth j qn []) (nth i qn []) then A i j else r0 R) /\
   orthonormal_cols R m (eK o) (eU o) /\
   (forall i k, k < eK o -> nth i qn [] <> nth k (eQ o) [] -> eU o i k = r0 R).
-Proof. exact eigh_qn_sound. Qed.
+Proof. exact eigh_qn_sound_src. Qed.
 Print Assumptions C18_eigh_qn_sound.
+
+(* eigh_qn's returned "singular values"  s = sqrt(lambda with negative entries set to 0)  (neg x stands for x < 0, sqrtw for
+   np.sqrt; contracts: 0 is not negative, sqrt(x)^2 = x for non-negative x).  Guaranteed: s_k^2 is the block eigenvalue clipped
+   at 0; U diag(s^2) U^dagger is U diag(clip lambda) U^dagger, i.e. the masked density matrix with the negative eigenvalues of
+   its blocks removed; it IS the masked density matrix whenever no block eigenvalue is negative (positive semi-definite input:
+   the clipping only absorbs round-off). *)
+Theorem C18_eigh_qn_values_sound :
+  forall (R : CRing) (neg : R -> bool) (sqrtw : R -> R),
+  neg (r0 R) = false -> (forall x, neg x = false -> rmul R (sqrtw x) (sqrtw x) = x) ->
+  forall qn comp qntot order (A : mat R) (W : label -> bfac R),
+  order_ok order qn -> eigh_witness_ok_s R src_shape qn comp qntot order A W ->
+  let o := eigh_qn_s R src_shape qn comp qntot order W in
+  let s := eS R src_shape neg sqrtw o in
+  let m := length qn in
+  (forall k, rmul R (s k) (s k) = clip R neg (eL o k)) /\
+  (forall i j, sumn (eK o) (fun k => rmul R (rmul R (eU o i k) (rmul R (s k) (s k))) (rcj R (eU o j k)))
+               = sumn (eK o) (fun k => rmul R (rmul R (eU o i k) (clip R neg (eL o k))) (rcj R (eU o j k)))) /\
+  ((forall k, k < eK o -> neg (eL o k) = false) ->
+   forall i j, i < m -> j < m ->
+     sumn (eK o) (fun k => rmul R (rmul R (eU o i k) (rmul R (s k) (s k))) (rcj R (eU o j k)))
+     = if eigh_present_s src_shape comp qntot (nth i qn []) && label_eqb (nth j qn []) (nth i qn []) then A i j else r0 R).
+Proof. exact eigh_qn_values_sound_src. Qed.
+Print Assumptions C18_eigh_qn_values_sound.
 
 (* the flat-index gather  ravel().take(l * ncols + r)  addresses entry (l, r) *)
 Theorem C18_gather_entry :
@@ -138,6 +172,70 @@ Theorem C18_krylov_no_test_full_space :
   exists s, fst (run n bs (fun _ => false) (fun _ => false)) = Some (FullSpace, n, s).
 Proof. exact krylov_no_test_full_space. Qed.
 Print Assumptions C18_krylov_no_test_full_space.
+
+(* the exit taken is the first whose test fires: no breakdown test fired before, the breakdown exit means the test fired at
+   it-1, the full-space exit means it = n *)
+Theorem C18_krylov_exit_spec :
+  forall n bs brk conv, 1 <= n -> 1 <= bs ->
+  forall e it s, fst (run n bs brk conv) = Some (e, it, s) ->
+    1 <= it /\ it <= n /\ (forall j, j + 1 < it -> brk j = false) /\
+    (e = Breakdown -> brk (it - 1) = true) /\ (e = FullSpace -> it = n).
+Proof. exact krylov_exit_spec. Qed.
+Print Assumptions C18_krylov_exit_spec.
+
+(* THE LOOP WITH ITS DATA (Model/Krylov.v Part 4: exact Lanczos vectors, alpha, beta over a ring with 1/x, norm, real
+   part and the breakdown test as abstract operations with the contracts below; expT m is the kernel of _expm_krylov,
+   standing for exp(dt * T_m)).  By construction, for ANY matrix A (no Hermiticity needed): once the residual of step j
+   vanishes and no earlier beta was "zero", A V = V T for the first j+1 Lanczos vectors and the exact tridiagonal T. *)
+Theorem C18_lanczos_relation_exact :
+  forall (R : CRing) N (A : matx R) inv nrm rpart (isz : R -> bool) v0,
+  (forall x, isz x = false -> rmul R x (inv x) = r1 R) ->
+  forall j, (forall k, k < j -> isz (beta R N A inv nrm rpart v0 k) = false) ->
+  (forall i, i < N -> resid R N A inv nrm rpart v0 j i = r0 R) ->
+  lanczos_rel R N (S j) A (Vmat R N A inv nrm rpart v0) (Tmat R N A inv nrm rpart v0).
+Proof. exact lanczos_relation_exact. Qed.
+Print Assumptions C18_lanczos_relation_exact.
+
+(* the value RETURNED by the loop in the BREAKDOWN exit: it is  nrmv * V[:it].T * E * e1  with E = expT it the kernel's matrix
+   for the exact T of the state at the exit; A V = V T holds there; hence the returned vector is q(A) vstart whenever the
+   kernel evaluates the polynomial q of T (exp being the limit of its Taylor polynomials, for which both sides converge). *)
+Theorem C18_krylov_return_breakdown :
+  forall (R : CRing) N (A : matx R) inv nrm rpart (isz : R -> bool) v0,
+  (forall x, isz x = false -> rmul R x (inv x) = r1 R) ->
+  (forall w, isz (nrm w) = true -> forall i, i < N -> w i = r0 R) ->
+  forall (expT : nat -> matx R) (nrm0 : R) (v : vec R),
+  (forall i, i < N -> v i = rmul R nrm0 (v0 i)) ->
+  forall bs conv it r, 1 <= N -> 1 <= bs ->
+  krylov_return R N A inv nrm rpart isz bs conv v0 nrm0 expT = Some (Breakdown, it, r) ->
+  r = ret_vec R N A inv nrm rpart v0 nrm0 (expT it) it /\ 1 <= it /\ it <= N /\
+  lanczos_rel R N it A (Vmat R N A inv nrm rpart v0) (Tmat R N A inv nrm rpart v0) /\
+  forall q, (forall c, c < it -> mv R it (expT it) (e1 R) c = poly_apply R it (Tmat R N A inv nrm rpart v0) q (e1 R) c) ->
+            veq R N r (poly_apply R N A q v).
+Proof. exact krylov_return_breakdown. Qed.
+Print Assumptions C18_krylov_return_breakdown.
+
+(* the same for the FULL-SPACE exit (it = N); here the last residual is never computed by the code, and its vanishing needs what
+   exact Lanczos on a Hermitian matrix provides: A Hermitian, the N Lanczos vectors orthonormal and complete (hypotheses;
+   checked numerically on the logged V), beta real, alpha = the (real) Rayleigh quotient *)
+Theorem C18_krylov_return_fullspace :
+  forall (R : CRing) N (A : matx R) inv nrm rpart (isz : R -> bool) v0,
+  (forall x, isz x = false -> rmul R x (inv x) = r1 R) ->
+  forall (expT : nat -> matx R) (nrm0 : R) (v : vec R),
+  (forall i, i < N -> v i = rmul R nrm0 (v0 i)) ->
+  hermitian R N A ->
+  orthonormal R N N (Vmat R N A inv nrm rpart v0) ->
+  (forall i l, i < N -> l < N ->
+     sumn N (fun k => rmul R (Vmat R N A inv nrm rpart v0 i k) (rcj R (Vmat R N A inv nrm rpart v0 l k)))
+     = if Nat.eqb i l then r1 R else r0 R) ->
+  (forall w, rcj R (nrm w) = nrm w) -> (forall x, rcj R x = x -> rpart x = x) ->
+  forall bs conv it r, 1 <= N -> 1 <= bs ->
+  krylov_return R N A inv nrm rpart isz bs conv v0 nrm0 expT = Some (FullSpace, it, r) ->
+  r = ret_vec R N A inv nrm rpart v0 nrm0 (expT it) it /\ it = N /\
+  lanczos_rel R N it A (Vmat R N A inv nrm rpart v0) (Tmat R N A inv nrm rpart v0) /\
+  forall q, (forall c, c < it -> mv R it (expT it) (e1 R) c = poly_apply R it (Tmat R N A inv nrm rpart v0) q (e1 R) c) ->
+            veq R N r (poly_apply R N A q v).
+Proof. exact krylov_return_fullspace. Qed.
+Print Assumptions C18_krylov_return_fullspace.
 
 (* exactness of the method in the breakdown / full-space exits: from A V = V T and v = ||v|| V e1,
    q(A) v = ||v|| V q(T) e1 for every polynomial q (coefficient list).  V^dagger V = I is not needed
@@ -186,9 +284,9 @@ Print Assumptions C18_krylov_sites_hermitian.
 (* a 4 x 4 integer matrix with two sectors, forbidden entries, exact integer block factors *)
 Example C18_ex_labels : wf_labels Ex.qntot Ex.qnl /\ wf_labels Ex.qntot Ex.qnr /\ order_ok Ex.order Ex.qnl.
 Proof. exact Ex.wf. Qed.
-Example C18_ex_witness_full : svd_witness_ok ZRing true Ex.qnl Ex.qnr Ex.qntot Ex.order Ex.A Ex.Wfull.
+Example C18_ex_witness_full : svd_witness_ok_s ZRing src_shape true Ex.qnl Ex.qnr Ex.qntot Ex.order Ex.A Ex.Wfull.
 Proof. exact Ex.full_ok. Qed.
-Example C18_ex_witness_econ : svd_witness_ok ZRing false Ex.qnl Ex.qnr Ex.qntot Ex.order Ex.A Ex.Wecon.
+Example C18_ex_witness_econ : svd_witness_ok_s ZRing src_shape false Ex.qnl Ex.qnr Ex.qntot Ex.order Ex.A Ex.Wecon.
 Proof. exact Ex.econ_ok. Qed.
 (* full mode: 3 paired columns, one additional column on each side, both labelled 1: 1 + 1 <> qntot = 1 *)
 Example C18_ex_full_extra_columns_not_paired :
@@ -208,3 +306,25 @@ Example C18_ex_krylov_run :
 Proof. vm_compute. reflexivity. Qed.
 Example C18_ex_sites : 1 <= length sites.
 Proof. vm_compute. lia. Qed.
+(* the data model over the field with three elements, N = 2: all contracts hold, and both exact exits are taken *)
+Example C18_ex_data_contracts :
+  (forall x, KEx.isz x = false -> KEx.mul x (KEx.inv x) = KEx.a1) /\
+  (forall w : vec KEx.F3, KEx.isz (KEx.nrm w) = true -> forall i, i < 2 -> w i = KEx.a0).
+Proof. exact (conj KEx.inv_ok KEx.nrm_zero). Qed.
+Example C18_ex_breakdown_run :
+  exists r, krylov_return KEx.F3 2 KEx.diagA KEx.inv KEx.nrm KEx.rpart KEx.isz 2 (fun _ => false) KEx.ve0 KEx.a1 KEx.idE
+            = Some (Breakdown, 1, r).
+Proof. exact KEx.breakdown_run. Qed.
+Example C18_ex_fullspace_run :
+  exists r, krylov_return KEx.F3 2 KEx.flipA KEx.inv KEx.nrm KEx.rpart KEx.isz 2 (fun _ => false) KEx.ve0 KEx.a1 KEx.idE
+            = Some (FullSpace, 2, r).
+Proof. exact KEx.fullspace_run. Qed.
+Example C18_ex_fullspace_hyps :
+  hermitian KEx.F3 2 KEx.flipA /\
+  orthonormal KEx.F3 2 2 (Vmat KEx.F3 2 KEx.flipA KEx.inv KEx.nrm KEx.rpart KEx.ve0) /\
+  (forall i l, i < 2 -> l < 2 ->
+     @sumn KEx.F3 2 (fun k => rmul KEx.F3 (Vmat KEx.F3 2 KEx.flipA KEx.inv KEx.nrm KEx.rpart KEx.ve0 i k)
+                                          (rcj KEx.F3 (Vmat KEx.F3 2 KEx.flipA KEx.inv KEx.nrm KEx.rpart KEx.ve0 l k)))
+     = if Nat.eqb i l then r1 KEx.F3 else r0 KEx.F3) /\
+  (forall w : vec KEx.F3, rcj KEx.F3 (KEx.nrm w) = KEx.nrm w) /\ (forall x : KEx.F3, rcj KEx.F3 x = x -> KEx.rpart x = x).
+Proof. exact KEx.fullspace_hyps. Qed.
